@@ -34,6 +34,18 @@ var c16SeedImports = []string{
 	"./secret.json ", "/ /secret.json", "./ ../secret.json", "/ ../secret", "/ ..", "./ ..", "/\t..", "./ ../",
 }
 
+// every whitespace / control / invisible character gets the padded-segment treatment, not only
+// space, tab and newline: a trim that knows one more character than the checks before it is the
+// classic escape (e.g. "\r.." is an ordinary name to path.Clean and becomes ".." after a late trim)
+func init() {
+	for _, ws := range []string{"\r", "\v", "\f", "\u00a0", "\u2028", "\u0085", "\x00", "\ufeff", "\r\n"} {
+		c16SeedImports = append(c16SeedImports,
+			"./"+ws+"../secret", "./.."+ws+"/secret", "./"+ws+".."+ws+"/secret", "/"+ws+"/secret", "/"+ws+"../secret",
+			"./"+ws+"../"+ws+"../secret", "./secret"+ws, "./"+ws+"../a", "./sub/"+ws+"../"+ws+"../secret", "./"+ws+"../secret.json")
+		c16ExtSyms = append(c16ExtSyms, ws, ws+"..", ".."+ws)
+	}
+}
+
 type c16PCtx struct {
 	Layout int
 	Pos    int // index into c16Positions: directory of the script holding the hostile import
